@@ -318,13 +318,39 @@ fn flat_pat_fn_arg( pat_ty: &PatType ) -> PatType{
     pat_ty
 }
 
+/// every parameter of the model gets one identifier, a pattern 
+/// is flattened `(a,b)` -> `a_b`, `(..)` -> `__`; the identifier must not 
+/// repeat the one of another parameter and a flattened one must not 
+/// be a name the model binds itself
+fn check_flat_ident( pat_ty: &PatType, new_arg: &PatType, idents: &mut Vec<Ident> ){
+
+    if let Pat::Ident(PatIdent{ ident,..}) = &*new_arg.pat {
+
+        if idents.contains(ident){
+            let msg = error::var_name_conflict(ident,"parameter");
+            abort!(pat_ty.pat,msg;note=error::FLAT_PARAMETER_NAME_NOTE);
+        }
+
+        if !matches!(&*pat_ty.pat, Pat::Ident(_)) {
+            let ConstVars{ actor,inter_send,inter_recv,..} = ConstVars::new();
+            if [actor,inter_send,inter_recv].contains(ident){
+                let msg = error::var_name_conflict(ident,"parameter");
+                abort!(pat_ty.pat,msg;note=error::FLAT_PARAMETER_NAME_NOTE);
+            }
+        }
+        idents.push(ident.clone());
+    }
+}
+
 fn flat_arguments( args: &Vec<FnArg> ) -> Vec<FnArg> {
     let mut loc = vec![];
+    let mut idents = vec![];
 
     for arg in args {
         match arg { 
             FnArg::Typed(pat_ty) => { 
                 let new_arg = flat_pat_fn_arg(pat_ty);
+                check_flat_ident(pat_ty,&new_arg,&mut idents);
                 loc.push(FnArg::Typed(new_arg));
             },
             _ => { loc.push( arg.clone());},
